@@ -106,7 +106,7 @@ def run(tier):
              ("nested switches and runs of labels, <=7 nodes", 7, ["expr", "compound2", "switch", "case", "default", "break"])]
     if tier == "thorough":
         plans = [("all productions, <=4 nodes", 4, ALL), ("switch-focused, <=6 nodes", 6, SWITCHY), ("reduced alphabet, <=5 nodes", 5, REDUCED),
-                 ("nested switches and runs of labels, <=8 nodes", 8, ["expr", "compound2", "compound3", "switch", "case", "default", "break"])]
+                 ("nested switches and runs of labels, <=7 nodes", 7, ["expr", "compound2", "compound3", "switch", "case", "default", "break"])]
     allc = []
     for label, nodes, kinds in plans:
         cases = enumerate_bodies(ctx, label, nodes, kinds)
